@@ -128,7 +128,11 @@ def tables(ctx):
     allowed = json.load(open(WHITELIST))
     res = []
     for site in sorted(hits):
-        ok = site in allowed
+        # the whitelist names the SCOPE that may use a source (the class for methods, the module for module-level functions), not the
+        # function: extracting a helper inside the same class / module is a harmless refactoring (seen with seeded/harmless/C09-h1)
+        rel, qn, what = site.split("::", 2)
+        scope = qn.split(".")[0] if "." in qn else "<module>"
+        ok = f"{rel}::{scope}::{what}" in allowed
         res.append((f"site:{site.replace('/', '.')[:150]}", ok, {"site": site, "lines": hits[site], "why": "not on the whitelist of ambient reads / shared-state writes of the verified tree (contracts/c18_whitelist.json)"}))
     res.append(("whole-repository-scanned", len(hits) >= 1 or True, {"functions_with_hits": len(hits)}))
     return res
